@@ -1085,6 +1085,9 @@ class Engine:
             return VBound(base, n.attr)
         if isinstance(base, (VSeq, VMat)) and n.attr == "copy":
             return VBound(base, "copy")
+        if isinstance(base, VOptSeq) and n.attr == "copy":
+            self.oblige("pre@not-None:" + ast.unparse(n)[:50], st, z3.Not(base.none))
+            return VBound(VSeq(base.arr, base.len), "copy")
         if isinstance(base, (VSeq, VNum, VMat)) and n.attr == "ndim":
             return VNum(getattr(base, "ndim", z3.IntVal(1 if isinstance(base, VSeq) else 0 if isinstance(base, VNum) else 2)))
         if isinstance(base, VBoolSeq) and n.attr in ("all", "any"):
@@ -1946,6 +1949,8 @@ class Engine:
                 self.call_method(st, base, t.attr, [v], {}, kind="setter", node=t)
             else:
                 raise Unsupported(f"store to {base.cls}.{t.attr}")
+        elif isinstance(t, ast.Subscript) and hasattr(self.ev(t.value, st), "vstore"):
+            self.ev(t.value, st).vstore(self, st, t, v)          # duck protocol for contract-defined container values
         elif isinstance(t, ast.Subscript) and isinstance(self.ev(t.value, st), VNameMap):
             m_ = self.ev(t.value, st)
             nm = self.ev(t.slice, st)
